@@ -24,12 +24,14 @@ from . import c12_link as LNK
 from . import c12_copy as CPY
 from . import c12_prop as PRP
 from . import c12_role as ROLE
+from . import c12_attr as ATT
 from ..extract import writeorder as _wo
 from ..extract import mutorder as _mo
 from ..extract import linkorder as _lo
 from ..extract import copyorder as _co
 from ..extract import propcreate as _pc
 from ..extract import roleorder as _ro
+from ..extract import attrorder as _ao
 from ..extract import frameshape as _fs         # C16's translator of data_frame.py: frame_write_refused_unchanged rests on it
 from ..extract import datasetshape as _ds       # C01's compiler of data_set.py: append_refused_unchanged rests on it
 
@@ -99,6 +101,12 @@ THEOREMS = [
     "Nix.C12.create_link_file_test_counterexample",
     "Nix.C12.dimension_link_object_refused_unchanged_partial",
     "Nix.C12.dimension_link_object_refused_unchanged_counterexample",
+    "Nix.C12.attr_sound",
+    "Nix.C12.attr_setters_safe",
+    "Nix.C12.attr_setter_refused_unchanged",
+    "Nix.C12.set_attr_refused_unchanged",
+    "Nix.C12.data_array_label_accepted",
+    "Nix.C12.set_attr_text_check_counterexample",
 ]
 ASSUMPTIONS = [
     "uuid4 ids are drawn from an abstract fresh supply; no link of the file is named like an id not yet drawn "
@@ -127,6 +135,16 @@ ASSUMPTIONS = [
     "storable as text; flags: bool() defined, value; source of the expected class); h5py's object copy succeeds when the "
     "name is free in the destination; copying the properties into the freshly copied section (children=False) is not "
     "refused; the container group opened with create=True stays invisible to readers while it is empty",
+    "RoleWrite: the object offered to a role-link setter is abstract (its class as the `is None` / `isinstance` tests see "
+    "it; where it lives: held by the owner's block - a section: anywhere in this file -, another block, another file, "
+    "deleted again; for Section.link given no Section: whether find_sections finds the id); of the HDF5 writes of a "
+    "setter only the hard link can refuse, and only for an object of another file; an object the block's container "
+    "holds lives in this file; the harness reads class and place off the scene",
+    "AttrWrite: the value offered to an attribute setter is abstract (None-ness, isinstance of the type named, whether the "
+    "setter's normalisation raises and whether it yields None / text, whether the text can be stored, whether h5py has "
+    "an HDF5 type for the value); h5py determines the HDF5 type of a value before it touches the attribute and removes "
+    "the previous value before it writes the new one (a text it cannot store is found out after the removal); "
+    "RangeDimension.label / unit are modelled for a dimension without link",
     "PropCreate: name and values enter as classes (name usable as key / taken / accepted by check_entity_name; values "
     "accepted by the typing block / element type known / storable - harness table VALUES of c12_prop.py); the theorem "
     "assumes the duplicate test sees the section as it is (Consistent)",
@@ -146,6 +164,12 @@ TRUSTED_EXTRA = ["harness/lib/storeimpl.py + storegen.py (path addressing by ite
                  "statement it does not know is a broken tie",
                  "harness/props/c12_link.py probes of the offered index (len / iter / count / isinstance Sequence, per entry "
                  "isinstance / == -1 / < 0, NumPy's element type of the list)",
+                 "harness/extract/roleorder.py renders the eleven role-link setters and H5Group.create_link statement by "
+                 "statement, one path per class of the offered object (tests on the class are evaluated, every other "
+                 "test must be one of the known membership / presence / link-type tests; unknown statement = broken tie)",
+                 "harness/extract/attrorder.py finds every property setter of the anchored modules that calls set_attr and "
+                 "renders it with H5Group.set_attr / H5DataSet.set_attr inlined (unknown statement = broken tie); "
+                 "harness/props/c12_attr.py probes of the offered value",
                  "harness/extract/copyorder.py renders H5Group.copy and its callers statement by statement (unknown statement = "
                  "broken tie); harness/props/c12_copy.py probes of name and flags"]
 READY = True
@@ -189,6 +213,23 @@ MANIFEST = {
                   "body / except handler): create_property_refused_unchanged covers every refusal incl. the values refused "
                   "after the property was written (the handler's delete-by-name restores the section because the duplicate "
                   "test came first - cleanup_needs_duplicate_test shows it would not otherwise). "
+                  "(5b) role links (Pure/RoleWrite.lean on Generated/RoleOrder.lean: the setters of MultiTag.positions / "
+                  "extents, Feature.data, Section.link and the seven metadata setters with H5Group.create_link inlined, one "
+                  "step list per class of the offered object): role_sound + role_setters_safe + "
+                  "role_setter_refused_unchanged - for every setter, every offered object (class x held by the block / "
+                  "other block / other file / deleted x id found or not) and every previous state of the owner a refused "
+                  "assignment leaves the previous link, target_type and updated_at as they were; the discipline now knows "
+                  "that a passed guard establishes others (membership in the block => same file); "
+                  "flattened_extents_counterexample / create_link_file_test_counterexample prove the orders of seeded "
+                  "change C12-7 and of nixio before 16b3ce3 wrong; the object handed to Dimension.link_data_array / "
+                  "link_data_frame is modelled as it is (open finding: an object of another file is refused after the link "
+                  "group was rebuilt - dimension_link_object_refused_unchanged kept as a Prop with _partial and "
+                  "_counterexample). "
+                  "(5c) single-valued attributes (Pure/AttrWrite.lean on Generated/AttrOrder.lean: the 21 setters that end in "
+                  "set_attr, found in the source, set_attr inlined, one list for None and one for a value): attr_sound + "
+                  "attr_setters_safe + attr_setter_refused_unchanged - every setter, every value, attribute present or "
+                  "absent: refused => attribute and updated_at unchanged; set_attr_text_check_counterexample proves the "
+                  "set_attr of before nixio df56e57 wrong (h5py removes the previous value before it refuses a text). "
                   "(6) DataSet.append / write_direct / __setitem__ / data_extent: append_refused_unchanged and "
                   "data_step_refused_unchanged restate, on the definitions C01 compiles from data_set.py, that a raised step "
                   "leaves extent, elements, element type and filter flag as they were (the roll-back of append); "
@@ -205,9 +246,9 @@ MANIFEST = {
                   "the translators' reading of the statements; h5py/HDF5 link and resize semantics modelled, not "
                   "verified; the event classification of mutorder.py is by method name and the 15 mutators listed in "
                   "Props/C12.lean `writesFirst` are exempt from the order theorem (covered by the writer model or the oracle "
-                  "only). Partial: refusals of dimension setters (labels, unit, label, "
-                  "offset, interval), Property attribute setters "
-                  "and File-level deletes have no theorem: they are checked by the oracle (catalogue + spelling "
+                  "only). Partial: refusals of the vector-valued dimension setter SetDimension.labels' own "
+                  "validation loop, DataFrame.units, Property.odml_type, label / unit of a LINKED range dimension (C05 models "
+                  "the link) and File-level deletes have no C12 theorem: they are checked by the oracle (catalogue + spelling "
                   "sweep) on the implementation only. Tag.units / MultiTag.units / SetDimension.labels: only their common "
                   "write_data call with a text dtype has a theorem (write_data_text_refused_unchanged), their own validation "
                   "loops are not modelled; the copy model stops at the destination container (the copied subtree is one item); ticks_refused_unchanged assumes that a linked dimension holds no ticks dataset. create_multi_tag with positions/extents given as data has its own full theorem "
@@ -217,7 +258,7 @@ MANIFEST = {
     "technique": "Lean 4 proof (writer semantics of the structural model: per-operation case analysis and invariants over "
                  "all graphs / histories; a step-list machine for the vector setters with induction over validation "
                  "prefixes; a guard-discipline theorem by induction over step lists for the dimension links) with differential "
-                 "correspondence checking against nixio, four ast-based translators (+ C01's compiler of data_set.py), and an "
+                 "correspondence checking against nixio, six ast-based translators (+ C01's compiler of data_set.py, C16's of data_frame.py), and an "
                  "implementation-side property oracle (snapshot around refused calls: catalogue, histories, spelling sweep)",
 }
 
@@ -229,6 +270,7 @@ def extract(repo):
     files.update(_co.extract(repo))
     files.update(_pc.extract(repo))
     files.update(_ro.extract(repo))
+    files.update(_ao.extract(repo))
     files.update(_ds.extract(repo))
     files.update(_fs.extract(repo))
     return files
@@ -961,8 +1003,35 @@ def correspondence(ctx):
         if rf is not None:
             _close_scene(rf, rc, rpath)
     total += len(rcases)
+    # single-valued attributes: the 21 setters that end in set_attr against Pure/AttrWrite.lean on Generated/AttrOrder.lean
+    acases = ATT.all_cases()
+    adist = {"refused": 0, "accepted": 0}
+    apath = ctx.tmpfile("c12-attr.nix")
+    af, ac = _scene_file(ctx, apath)
+    try:
+        with ticking_clock():
+            aops = [ATT.abstract(c) for c in acases]
+            ares = [_quiet(lambda c=c: ATT.run(ac, c)) for c in acases]
+    finally:
+        _close_scene(af, ac, apath)
+    amodel = core.run_driver(PROP, aops)
+    for c, o, m, i in zip(acases, aops, amodel, ares):
+        adist["refused" if i["err"] else "accepted"] += 1
+        seen.add(core.canon(["attr", c]))
+        if ATT.canon_model(m, c, o) != ATT.canon_impl(i, o):
+            disagreements.append(Disagreement({"attr_case": c, "abstraction": o}, ATT.canon_model(m, c, o),
+                                              dict(ATT.canon_impl(i, o), error=i["err"])))
+    total += len(acases)
     return {"evaluations": total, "distinct_nontrivial": len(seen),
-            "rule": "(0000) role links: MultiTag.positions / extents, Feature.data (array, tagged / frame, untagged), "
+            "rule": "(00000) single-valued attributes: each of the 21 setters that end in set_attr (Entity.type / definition, "
+                    "DataArray.unit / label / expansion_origin, dimension label / unit / offset / sampling_interval, the "
+                    "Property attributes, Section.reference / repository, Feature.link_type) x attribute present / absent x "
+                    "32 values (None, text, empty / blank text, text with NUL / a lone surrogate, numpy.str_, str subclass, "
+                    "bytes, Python / NumPy numbers, nan, complex, integers beyond 64 bit, Fraction, Decimal, arrays, lists, "
+                    "objects, link types): refused or accepted (error class), the attribute afterwards (absent / previous "
+                    "value / new value, read with h5py), updated_at moved - against Pure/AttrWrite.lean run on "
+                    "Generated/AttrOrder.lean; the value is abstracted by probing it (isinstance, nixio's own sanitizer / "
+                    "float / LinkType, check_text_storable, a scratch h5py attribute). (0000) role links: MultiTag.positions / extents, Feature.data (array, tagged / frame, untagged), "
                     "Section.link and the seven metadata setters on an owner that has the link or (where the link is "
                     "optional) has none, offered one of 29 objects (arrays / frames / sections held by the owner's block, "
                     "of the other block, of ANOTHER OPEN FILE, deleted again; None, numbers, text, entities of other "
@@ -1007,7 +1076,7 @@ def correspondence(ctx):
             "samples": samples,
             "distribution": {"ops": dist, "impl_errors": errs, "injected": inj, "refused_mutating_calls": refused_mut,
                              "vector_cases": vdist, "link_cases": ldist, "copy_cases": cdist, "property_cases": pdist,
-                             "role_cases": rdist},
+                             "role_cases": rdist, "attr_cases": adist},
             "disagreements": disagreements, "exhaustive": False}
 
 
@@ -1411,14 +1480,13 @@ def _catalogue():
     for lab, key, attr, back in SW.ROLE_SETTERS:
         retry = (lambda c, key=key, attr=attr, back=back: _set(c[key], attr, c[back]))
         is_sec = attr in ("metadata", "link")
-        for vlab, vkey in ((("section-of-another-file", "ofs"), ("wrong-kind", "d1"), ("deleted-array", "dead_da")) if is_sec else
-                           (("foreign-block", "xf" if key == "fte" else "da2"), ("array-of-another-file", "ofd"),
-                            ("frame-of-another-file", "off"), ("deleted-again", "dead_df" if key == "fte" else "dead_da"),
-                            ("wrong-kind", "t"), ("section", "s"))):
+        for vlab, vkey in ((("section-of-another-file", "ofs"), ("wrong-kind", "d1")) if is_sec else
+                           (("foreign-block", "xf" if key == "fte" else "da2"),
+                            ("of-another-file", "off" if key == "fte" else "ofd"),
+                            ("deleted-again", "dead_df" if key == "fte" else "dead_da"))):
             add("%s:%s" % (lab, vlab), lambda c, key=key, attr=attr, vkey=vkey: _set(c[key], attr, c[vkey]), retry)
-        if attr != "extents" and attr != "link":
+        if attr in ("positions", "data"):
             add("%s:none" % lab, lambda c, key=key, attr=attr: _set(c[key], attr, None), retry)
-        add("%s:id-text" % lab, lambda c, key=key, attr=attr: _set(c[key], attr, c["ofs"].id), retry)
     # open finding: a dimension is linked to an object of another file (refused by HDF5 after the link group was built)
     add("Dimension.link:object-of-another-file:linked-range-array", lambda c: c["rl"].link_data_array(c["ofd"], [-1]),
         lambda c: c["rl"].link_data_array(c["dx"], [-1]))
@@ -1779,6 +1847,105 @@ def _replay_sweep(ctx, inp):
         scene.close()
 
 
+# the scenes of the case-by-case correspondences (c12_vec / _link / _copy / _prop / _role / _attr) prepare a state, make
+# one call and observe what the call can touch.  Independently of any model: if the call was refused, the observation
+# must be the prepared state.
+
+
+def _case_unchanged(kind, case, i):
+    """None when the refused call of `case` left what the scene observes as it was, else what differs"""
+    if kind == "link_case":
+        fn = case["fn"]
+        if i["ndims"] != 0:
+            return "the array has %+d dimension descriptor(s)" % i["ndims"]
+        if i["touched"]:
+            return "updated_at of the array moved"
+        if fn.startswith("DataArray"):
+            return None
+        ticks, linked = case["state"]
+        dim = i["dim"] or {}
+        if fn.startswith("RangeDimension") and dim.get("ticks") != i["ticks_before"]:
+            return "ticks: %s -> %s" % (i["ticks_before"], dim.get("ticks"))
+        link = dim.get("link")
+        if linked and (link is None or link["fresh"] or not link["complete"]):
+            return "the previous link is gone or replaced: %s" % (link,)
+        if not linked and link is not None:
+            return "a link group appeared: %s" % (link,)
+        return None
+    if kind == "copy_case":
+        return None if i["items"] == 1 and i["last"] is None else "the destination container holds %d new item(s): %s" % (
+            i["items"] - 1, i["last"])
+    if kind == "property_case":
+        return None if i["last"] is None and i["old_kept"] else "the section's properties changed: new %s, old kept %s" % (
+            i["last"], i["old_kept"])
+    if kind == "vector_case":
+        stored = case.get("stored")
+        want = None if not stored else [1, [VEC._frac_str(fractions.Fraction(x)) for x in stored]]
+        if case.get("setter") == "Property.values" and not stored:
+            want = i["ds"] if i["ds"] is not None and not i["ds"][1] else [1, []]     # a property without values
+        if i["touched"]:
+            return "updated_at moved"
+        if i["ds"] != want:
+            return "stored vector: %s -> %s" % (want, i["ds"])
+        if "link" in i and bool(i["link"]) != bool(case.get("linked")):
+            return "link of the dimension: %s -> %s" % (bool(case.get("linked")), i["link"])
+        return None
+    if kind in ("role_case", "attr_case"):
+        return "what the owner shows changed: %s" % (i,) if i.get("changed") else None
+    return None
+
+
+def _run_cases(ctx, kind, cases, tag):
+    """[(case, observation)] of the cases on a scene of their kind"""
+    out = []
+    if kind in ("role_case", "attr_case"):
+        path = ctx.tmpfile("c12-case-%s.nix" % tag)
+        f = c = None
+        try:
+            for case in cases:
+                if f is None:
+                    f, c = _scene_file(ctx, path)
+                if kind == "role_case":
+                    i, dirty = _quiet(lambda: ROLE.run(c, case))
+                else:
+                    i, dirty = _quiet(lambda: ATT.run(c, case)), False
+                out.append((case, i))
+                if dirty:
+                    _close_scene(f, c, path)
+                    f = c = None
+        finally:
+            if f is not None:
+                _close_scene(f, c, path)
+        return out
+    mk = {"link_case": LNK.Scene, "copy_case": CPY.Scene, "property_case": PRP.Scene, "vector_case": VEC.Scene}[kind]
+    scene = mk(ctx.tmpfile("c12-case-%s.nix" % tag))
+    try:
+        for case in cases:
+            out.append((case, _quiet(lambda: scene.run(case))))
+    finally:
+        scene.close()
+    return out
+
+
+CASE_KINDS = ("link_case", "copy_case", "property_case", "vector_case", "role_case", "attr_case")
+
+
+def _case_failures(ctx, kind, cases, tag):
+    """(failures, refused) of the cases on the implementation alone"""
+    fails, refused = [], 0
+    for case, i in _run_cases(ctx, kind, cases, tag):
+        if not (i.get("refused") if "refused" in i else i.get("err") is not None):
+            continue
+        refused += 1
+        diff = _case_unchanged(kind, case, i)
+        if diff is not None:
+            fn = case.get("fn") or case.get("setter") or case.get("via") or ""
+            fails.append(Failure("a refused call changed the file", {"kind": "case", "which": kind, "case": case},
+                                 {"raised": i.get("error") or i.get("err"), "changes": [diff]},
+                                 "what the call can touch is as it was before the refused call", "%s:%s" % (kind, fn)))
+    return fails, refused
+
+
 def oracle(ctx, broken, hints):
     with ticking_clock():
         return _oracle(ctx, broken, hints)
@@ -1835,6 +2002,25 @@ def _oracle(ctx, broken, hints):
                                              replay_ops=h["prefix"])
             evals += len(ops)
             failures += _strict_failures(impl, ops, "hint", ctx)
+    # (b2) the disagreeing cases of the case-by-case correspondences, and a stream of link-building calls of the
+    # oracle's own: refused => what the scene observes is the state it prepared (no model involved)
+    for kind in CASE_KINDS:
+        hc = [h[kind] for h in hints if isinstance(h, dict) and kind in h][:20]
+        if hc:
+            fl, ref = _case_failures(ctx, kind, hc, "hint")
+            failures += fl[:3]
+            evals += len(hc)
+            refused += ref
+    lrng = random.Random("C12-oracle-link/%d" % ctx.seed)
+    lcases = []
+    while len(lcases) < ctx.budget(120, 3000) * (4 if broken and not failures else 1):
+        lc = LNK.gen_case(lrng)
+        if LNK.applicable(lc):
+            lcases.append(lc)
+    fl, ref = _case_failures(ctx, "link_case", lcases, "own")
+    failures += fl[:3]
+    evals += len(lcases)
+    refused += ref
     # (c) seeded histories with injected invalid calls, strict snapshot around every refused mutating call
     # the large budget of a broken obligation is for finding a failing input: not needed once there is one
     broken = broken and not failures
@@ -1929,9 +2115,12 @@ def matches_known(entry, failure):
     if cls == "Dimension.link:object-of-another-file":
         # catalogue cases of that label, or the sweep's: a dimension-linking call offered an entity of the second file
         inp = failure.input if isinstance(failure.input, dict) else {}
+        case = inp.get("case") if isinstance(inp.get("case"), dict) else {}
         return failure.site.startswith(cls + ":") or (
             inp.get("kind") == "sweep" and ".link_data_" in str(inp.get("target")) and
-            str(inp.get("spelling")) in ("entity:ofd", "entity:off"))
+            str(inp.get("spelling")) in ("entity:ofd", "entity:off")) or (
+            inp.get("kind") == "case" and inp.get("which") == "role_case" and
+            str(case.get("setter")).startswith("Dimension.link_data_") and case.get("value") in ("ofd", "off"))
     return failure.site == cls
 
 
@@ -1976,6 +2165,9 @@ def _replay_failure(ctx, fj):
         return None
     if inp.get("kind") == "sweep":
         return _replay_sweep(ctx, inp)
+    if inp.get("kind") == "case" and inp.get("which") in CASE_KINDS:
+        fl, _ = _case_failures(ctx, inp["which"], [inp["case"]], "replay")
+        return fl[0] if fl else None
     if inp.get("kind") == "history":
         ops, outs, _, impl = run_history(ctx, random.Random(0), 0, "mixed", "replay", 0, strict=True,
                                          replay_ops=inp["ops"])
